@@ -5,6 +5,9 @@ open SSVerif
 #print axioms C02_driver_optimum
 #print axioms C02_pruned_le_optimum
 #print axioms C02_unpruned_is_dp
+#print axioms C02_beam_search_is_masked_dp
+#print axioms C02_wide_beams_prune_nothing
+#print axioms C02_buildB_toNet
 #print axioms C02_pathScore_sound
 #print axioms C02_hmmStep_eq_ideal
 #print axioms C02_hmmStep5_eq_ideal
